@@ -17,7 +17,7 @@ import (
 // not an order; a fresh goroutine per event that merely contends for a sync.Mutex does
 // not order anything (sync.Mutex is not FIFO and goroutine start order is unspecified).
 func checkAsyncSequencing(c *Ctx, p *Prog, R *BusRoles) {
-	f := R.PublishFn
+	f := R.LoopFn // the function holding the dispatch loop (PublishContext or its helper)
 	n := 0
 	for _, b := range f.Blocks {
 		for _, in := range b.Instrs {
